@@ -135,8 +135,10 @@ func (s *BufferedWriteSyncer) initialize() {
 // Write writes log data into buffer syncer directly, multiple Write calls will be batched,
 // and log data will be flushed to disk when the buffer is full or periodically.
 func (s *BufferedWriteSyncer) Write(bs []byte) (int, error) {
+	verifHook("bws.w.enter", s, int64(len(bs)), 0)
 	s.mu.Lock()
 	defer s.mu.Unlock()
+	defer func() { verifHook("bws.w.body", s, int64(len(bs)), int64(s.writer.Buffered())) }()
 
 	if !s.initialized {
 		s.initialize()
@@ -156,8 +158,10 @@ func (s *BufferedWriteSyncer) Write(bs []byte) (int, error) {
 
 // Sync flushes buffered log data into disk directly.
 func (s *BufferedWriteSyncer) Sync() error {
+	verifHook("bws.y.enter", s, 0, 0)
 	s.mu.Lock()
 	defer s.mu.Unlock()
+	defer verifHook("bws.y.body", s, 0, 0)
 
 	var err error
 	if s.initialized {
@@ -175,11 +179,13 @@ func (s *BufferedWriteSyncer) flushLoop() {
 	for {
 		select {
 		case <-s.ticker.C:
+			verifHook("bws.l.tick", s, 0, 0)
 			// we just simply ignore error here
 			// because the underlying bufio writer stores any errors
 			// and we return any error from Sync() as part of the close
 			_ = s.Sync()
 		case <-s.stop:
+			verifHook("bws.l.stop", s, 0, 0)
 			return
 		}
 	}
@@ -188,10 +194,12 @@ func (s *BufferedWriteSyncer) flushLoop() {
 // Stop closes the buffer, cleans up background goroutines, and flushes
 // remaining unwritten data.
 func (s *BufferedWriteSyncer) Stop() (err error) {
+	verifHook("bws.s.enter", s, 0, 0)
 	// Critical section.
 	stopped := func() bool {
 		s.mu.Lock()
 		defer s.mu.Unlock()
+		defer verifHook("bws.s.body", s, 0, 0)
 
 		if !s.initialized {
 			return false
@@ -209,12 +217,15 @@ func (s *BufferedWriteSyncer) Stop() (err error) {
 
 	// Not initialized, or already stopped, no need for any cleanup.
 	if !stopped {
+		verifHook("bws.s.ret", s, 0, 0)
 		return
 	}
+	verifHook("bws.s.wait", s, 0, 0)
 
 	// Wait for flushLoop to end outside of the lock, as it may need the lock to complete.
 	// See https://github.com/uber-go/zap/issues/1428 for details.
 	<-s.done
+	verifHook("bws.s.woke", s, 0, 0)
 
 	return s.Sync()
 }
